@@ -107,6 +107,14 @@ type Script struct {
 	Name        string
 	Inst        int  // > 0: the Inst-th further instance of the plugin called Name (`-p "name --instance=N"`)
 	Conforming  bool // real plugin.Main with a scripted generator
+	// Channel: which of Plugin.Reader / Plugin.Writer the conforming plugin sets itself
+	// (0 both, 1 neither, 2 only Reader, 3 only Writer); the library's default for the
+	// other one is the process's standard stream
+	Channel int
+	// AltIn / AltOut: a channel of the plugin's own (not its standard streams) that the side
+	// it sets itself is connected to, when the world provides one
+	AltIn  io.ReadCloser
+	AltOut io.WriteCloser
 	StartFail   int  // 0 none, 1 ENOENT, 2 EAGAIN
 	ExitAtStart bool // exit before reading anything
 	NoSG        bool // do not advertise SERVICE_GENERATOR
